@@ -61,7 +61,8 @@ def _container(case, srcs):
     if case["form"] == "tuple":
         return tuple(srcs[k] for k in order), {k: pos for pos, k in enumerate(order)}
     # dict_pre: names of different lengths that extend one another (as real survey names do)
-    keys = {"dict_int": lambda k: 10 + k, "dict_str": lambda k: "sv%02d" % k,
+    # dict_neg: integer survey codes with one negative code and the largest equal to S-1 (codes usable as - wrapping - column indices)
+    keys = {"dict_int": lambda k: 10 + k, "dict_neg": lambda k: -1 if k == 0 else k, "dict_str": lambda k: "sv%02d" % k,
             "dict_pre": lambda k: ["lamost", "la", "lamost_dr5", "lam"][k % 4] + ("" if k < 4 else str(k))}[case["form"]]
     d = {}
     for k in order:
@@ -276,11 +277,11 @@ def build_cases(quick, seed):
             for f in surjections(n, S):
                 orders = list(itertools.permutations(range(S)))
                 for order in orders:
-                    forms = ["list", "dict_int", "dict_str"] + (["tuple"] if not quick else []) + (["dict_pre"] if n <= S + 1 else [])
+                    forms = ["list", "dict_int", "dict_str"] + (["dict_neg"] if S > 1 else []) + (["tuple"] if not quick else []) + (["dict_pre"] if n <= S + 1 else [])
                     for form in forms:
                         for scr in (False, True):
                             # likelihood part only on a sub-product (cost): list+dict_str, unscrambled
-                            lnl = (not scr) and form in ("list", "dict_str", "dict_pre") and (n <= 4 or not quick)
+                            lnl = (not scr) and form in ("list", "dict_str", "dict_pre", "dict_neg") and (n <= 4 or not quick)
                             cases.append(dict(assign=list(f), order=list(order), form=form, scramble=scr, jit=jit, lnl=lnl))
                             if lnl and S > 1:
                                 cases.append(dict(assign=list(f), order=list(order), form=form, scramble=scr, jit=jit, lnl=lnl, mixed=True))
